@@ -492,6 +492,14 @@ def run(ctx):
     from .c18 import rwlock_guard_rules as _rwl
     _rwl(ctx, 'C19.4-table-guards-not-across-awaits')
 
+    # "the receiver outlives bad input": a panic in the receive function kills the receiver task - no error value, no loop to go on with
+    ctx.rule('C19.2-receive-path-total', 'the functions the receiver task calls for every frame (the split receive function, the frame classification and decoding glue spliced into it, decode_complete_fragment) '
+             'have no undischarged panic-capable site (rule C06.1-no-panic re-run): a frame that makes them panic ends the task and with it every later delivery', floor=3)
+    from ..order import SubCtx as _Sub19p
+    from . import c06 as _c06_19
+    if type(ctx).__name__ != 'SubCtx':
+        _c06_19.run(_Sub19p(ctx, 'C19.2-receive-path-total', 'c06', allow=('C06.1-no-panic', 'C06.1-fragment-decoders-total')))
+
 
 def _outcomes(L, start, loop, recv_bb):
     """Outcomes {'continue','break'} reachable from `start`, propagating constant bools assigned on the
